@@ -1150,9 +1150,18 @@ def rule_cs_writer(cx, rep, port):
     wr = ms['write']
     writes = [c for c in walk_no_nested(wr) if isinstance(c, ast.Call) and (call_name(c) or '') == 'self.stream.write']
     seps = [c for c in writes if c.args and dotted(c.args[0]) == 'self.line_separator']
-    rep.decide(len(seps) == 1, 'line separator', seps[0] if seps else wr, 'exactly one line separator is written per record', '{} line separators are written per record'.format(len(seps)))
+    # (a private helper that write() calls unconditionally belongs to it)
+    if not writes:
+        for c_ in walk_no_nested(wr):
+            if isinstance(c_, ast.Call) and (call_name(c_) or '').startswith('self.') and call_name(c_)[5:] in ms and call_name(c_)[5:].startswith('_'):
+                writes += [c for c in walk_no_nested(ms[call_name(c_)[5:]]) if isinstance(c, ast.Call) and (call_name(c) or '') == 'self.stream.write']
+    seps = [c for c in writes if c.args and dotted(c.args[0]) == 'self.line_separator']
     lines = [c for c in writes if c.args and dotted(c.args[0]) != 'self.line_separator' and not (isinstance(c.args[0], ast.Name) and 'color' in c.args[0].id)]
-    rep.decide(len(lines) == 1 and lines[0].pos < (seps[0].pos if seps else 10 ** 9), 'record line', lines[0] if lines else wr, 'the joined record is written before its separator', 'the record line is not written exactly once before the separator')
+    if not seps or not lines:
+        rep.undecided('line separator', wr, 'how write() hands the record line and the line separator to the stream was not recognised ({} direct stream writes)'.format(len(writes)))
+    else:
+        rep.decide(len(seps) == 1, 'line separator', seps[0], 'exactly one line separator is written per record', '{} line separators are written per record'.format(len(seps)))
+        rep.decide(len(lines) == 1 and lines[0].pos < seps[0].pos, 'record line', lines[0], 'the joined record is written before its separator', 'the record line is not written exactly once before the separator')
     # join by delimiter
     jname = 'join_by_delim' if port == 'py' else 'simple_join'
     j = ms.get(jname)
